@@ -41,7 +41,7 @@ def gen_script(rng):
         d = rng.choice([0, 1000, 10 ** 6, 10 ** 8, 2 * NS])
         e = rng.choice([0, 0, 1, 1000])
         refid = cfg if (cfg >= 0 and rng.random() < 0.5) else (near_miss(rng, cfg) if (cfg >= 0 and rng.random() < 0.6) else rng.randrange(2 ** 31))
-        phc = rng.choice([-1, -1, 0, 12345, rng.randrange(10 ** 6), rng.choice([99999999, 100000000, 250000000, 123456789012, 2 ** 62, rng.randrange(10 ** 8, 10 ** 13)])])
+        phc = rng.choice([-1, -1, -2, 0, 12345, rng.randrange(10 ** 6), rng.choice([99999999, 100000000, 250000000, 123456789012, 2 ** 62, rng.randrange(10 ** 8, 10 ** 13)])])
         tag = rng.randrange(1, 60000)
         if rng.random() < 0.35:
             tag = tag // 4 * 4 + 3          # chronyd repeats one reference time in these replies (see harness/src/poller.rs)
